@@ -159,7 +159,7 @@ def _create_at_top_level(sig):
     import _thread, threading
     g = {"sig": sig, "done": threading.Event()}
     _thread.start_new_thread(exec, (_TOP_CODE, g))
-    if not g["done"].wait(60):
+    if not g["done"].wait(900):
         raise RuntimeError("top-level create() did not finish")       # pragma: no cover
     return g
 
